@@ -11,7 +11,7 @@
      {"a":"refresh","t":T,"g":G,"x":{"client","authok","scopes":[..]|["*"]},"res":"ok|err:..","scopes":[..],"atexp":E,"alive":BOOL,"st":S}
      {"a":"introspect"|"userinfo","t":T,"g":G,"client":"k1|k2","res":"active|inactive|err:..","st":S}
      {"a":"revoke","t":T,"g":G,"kind":"at|rt","res":"ok|err:..","st":S}
-     {"a":"expire"|"restore"|"logout","t":T,"st":S}
+     {"a":"expire"|"notyet"|"restore"|"logout","t":T,"st":S}   (account expiry / valid-from in the future / both cleared / parent login revoked)
    S = {"s":"absent|live|revoked","issued":I,"parent":"live|revoked|absent","from":F,"until":U}  (read back from the database) *)
 EXTENDS KOAuth2, Json, IOUtils, Integers
 CONSTANT Grace
